@@ -4,7 +4,7 @@ from vf import *
 import server_family, ref_family, lifecycle_family, framing_family, crypt_family, reload_family, conc_family
 
 PARTS = {"C06": (server_family, ref_family), "C07": (server_family, ref_family, framing_family), "C20": (server_family, lifecycle_family), "C14": (ref_family, lifecycle_family),
-         "C19": (server_family, ref_family), "C03": (crypt_family, ref_family), "C16": (reload_family, conc_family)}
+         "C19": (server_family, ref_family), "C03": (crypt_family, ref_family), "C16": (reload_family, conc_family), "C18": (ref_family, reload_family)}
 
 
 def merge(a, b):
